@@ -54,8 +54,8 @@ theorem clientUnsubscribe_fixed_empty (c : Conn) (u : GUnsubscribe) (h : ConnWF 
   obtain ⟨id, user, session, labels, subs⟩ := c
   simpa [clientUnsubscribe] using unsubList_all id user session labels u subs h.1
 
-theorem clientUnsubscribe_current_empty (c : Conn) (u : GUnsubscribe) (h : ConnWF c) :
-    clientUnsubscribe .current c "" u = (c, [Ev.push c.id "" u.Code u.Reason]) := by
+theorem clientUnsubscribe_preFix_empty (c : Conn) (u : GUnsubscribe) (h : ConnWF c) :
+    clientUnsubscribe .preFix c "" u = (c, [Ev.push c.id "" u.Code u.Reason]) := by
   have hnone : c.subs.find? (fun s => s.ch == "") = none := by
     rw [List.find?_eq_none]
     intro s hs
@@ -63,7 +63,7 @@ theorem clientUnsubscribe_current_empty (c : Conn) (u : GUnsubscribe) (h : ConnW
     simpa using this
   simp [clientUnsubscribe, unsubOne, hnone]
 
-/-- specification of one node for the empty channel, documented behaviour -/
+/-- specification of one node for the empty channel (the documented behaviour) -/
 def specConns (fm : FilterMatch) (call : UnsubscribeCall) (conns : List Conn) : List Conn :=
   conns.map fun c => if addressed fm call c then { c with subs := [] } else c
 
@@ -82,18 +82,18 @@ theorem hubUnsubscribe_fixed_empty (fm : FilterMatch) (call : UnsubscribeCall) (
     · simp [ha, specConns, specEvents, clientUnsubscribe_fixed_empty c call.unsubscribe hc]
     · simp [ha, specConns, specEvents]
 
-theorem hubUnsubscribe_current_empty (fm : FilterMatch) (call : UnsubscribeCall) (hch : call.ch = "") :
+theorem hubUnsubscribe_preFix_empty (fm : FilterMatch) (call : UnsubscribeCall) (hch : call.ch = "") :
     ∀ conns : List Conn, (∀ c ∈ conns, ConnWF c) →
-      hubUnsubscribe .current fm call conns =
+      hubUnsubscribe .preFix fm call conns =
         (conns, conns.flatMap fun c =>
           if addressed fm call c then [Ev.push c.id "" call.unsubscribe.Code call.unsubscribe.Reason] else [])
   | [], _ => by simp [hubUnsubscribe]
   | c :: cs, h => by
-    have ih := hubUnsubscribe_current_empty fm call hch cs (fun x hx => h x (List.mem_cons_of_mem _ hx))
+    have ih := hubUnsubscribe_preFix_empty fm call hch cs (fun x hx => h x (List.mem_cons_of_mem _ hx))
     have hc := h c List.mem_cons_self
     simp only [hubUnsubscribe, ih, hch]
     by_cases ha : addressed fm call c = true
-    · simp [ha, clientUnsubscribe_current_empty c call.unsubscribe hc]
+    · simp [ha, clientUnsubscribe_preFix_empty c call.unsubscribe hc]
     · simp [ha]
 
 /-- every node of the cluster executes the calling node's hub call -/
